@@ -465,6 +465,11 @@ pub fn gen_c10(args: &Args) {
             _ => r.range(-600_000, 600_000),
         };
         p.rnd = 0;
+        if [2usize, 3, 4].contains(&p.pol) && r.chance(1, 5) {
+            // a substitute latitude that is (almost) the site's own: within 0.01 degree, not equal
+            let d = r.range(1, 99) * if r.chance(1, 2) { 1 } else { -1 };
+            p.nl = (site.lat + d).clamp(-600_000, 600_000);
+        }
         if p.pol == 14 && p.fi == 0 && p.ii == 0 {
             // minutes-from-maghrib 'invalid' needs intervals to say anything
             p.fi = r.range(60, 120) * 60;
@@ -602,10 +607,10 @@ pub fn gen_c12(args: &Args) {
     let n = args.num("n", 12000);
     let mut r = Rng::new(seed ^ 0xC12);
     let mut w = TraceWriter::create(&args.str("out", "c12.ndjson"));
-    let kinds = ["off", "off", "iint", "fint", "imint", "school", "fang", "iang", "weather", "defw", "xfajr"];
+    let kinds = ["off", "off", "iint", "fint", "imint", "school", "fang", "iang", "weather", "defw", "xfajr", "ipol"];
     for i in 0..n {
         let kind = kinds[(i as usize) % kinds.len()];
-        let (site, date) = if kind == "xfajr" || r.chance(1, 5) {
+        let (site, date) = if kind == "xfajr" || kind == "ipol" || r.chance(1, 5) {
             twilight_edge_case(&mut r, 620_000)
         } else {
             (rand_site(&mut r, 620_000, 2), rand_date(&mut r))
@@ -668,6 +673,21 @@ pub fn gen_c12(args: &Args) {
             "defw" => {
                 p.w = None;
                 q.w = Some((10100, 140));
+            }
+            "ipol" => {
+                // an interval-defined Fajr / Isha under a policy: the definition still holds on the reported times
+                q = P::of_method(*r_pick(&mut r, &[7usize, 8, 7, 8, 1, 6]));
+                if q.ii == 0 || r.chance(1, 4) {
+                    q.fi = r.range(30, 120) * 60;
+                }
+                if r.chance(1, 4) {
+                    q.ii = r.range(30, 120) * 60;
+                }
+                q.pol = *r_pick(&mut r, &[1usize, 2, 3, 4, 5, 6, 7, 8, 9, 10, 13, 2, 5]);
+                q.nl = *r_pick(&mut r, &[485_000i64, -485_000, 300_000, 550_000]);
+                q.rnd = 0;
+                p = q.clone();
+                p.pol = 0;
             }
             _ => {
                 // xfajr: a call under a policy, to look at Imsaak when Fajr is extreme
